@@ -11,6 +11,9 @@ Per program it returns
                         unknown-site, depth-below-offset, only-leaves, void, cut-not-applied, dispatch
   leaks                 calls entered above `entry depth + offset` (a callee left the counter raised)
   erasure               per function: {n0, n, first, tests, max_combinations}
+  max_wdepth            most raised-counter calls on a path since the root of the region (= `Shape.wdepth`
+                        of the real call tree); `over` = calls where it exceeds `B sk m d_root`;
+                        max_slack = max (wdepth - (cutK*m - d_root))  (the theorem says <= 4*maxCnt)
 """
 import inspect
 import sys
@@ -29,6 +32,9 @@ def table():
         for s in g["sites"]:
             sites[(s["path"], s["line"])] = s
     disp = [[a for a, _ in l] for _, l in sk["dispatch"]]
+    allsites = [s for g in sk["gens"] + sk["roots"] for s in g["sites"]]
+    _TABLE["maxCnt"] = max([s["cnt"] for s in allsites] + [0])
+    _TABLE["cutK"] = max([s["cut"][1] for s in allsites if s["cut"] and s["cut"][0] == ">"] + [0])
     _TABLE.update(sites=sites, heads=names, gens={g["name"] for g in sk["gens"]},
                   wrap=[m["name"] for m in sk["raw"]], dispatch=disp, conds=[c for c, _ in sk["dispatch"]])
     return _TABLE
@@ -40,7 +46,8 @@ def install(state, spec):
     tb = table()
     st = state.setdefault("depth", {})
     st.update(max_depth_seen=0, max_nesting=0, max_pyframes=0, calls=0, validated=0, bottoms=0, leaks=0,
-              mismatches=[], mismatch_counts={}, site_hits={}, dispatch_checked=0, erasure=[], orig={})
+              mismatches=[], mismatch_counts={}, site_hits={}, dispatch_checked=0, erasure=[], orig={},
+              max_wdepth=0, max_slack=-10**6, over=[])
     stack = []          # (name, entry depth, only_leaves)
     nest = [0]
 
@@ -77,15 +84,28 @@ def install(state, spec):
                 # the flattened site: helper frames up to the nearest generator / root
                 path = []
                 head = None
+                cand = None         # `gen_variable_decl`: a region root when called from the top level,
+                outer = None        # a helper of `gen_assignment` otherwise
                 for e in reversed(stack):
                     nm, d0, ol0 = e[0], e[1], e[2]
                     if nm == "generate_expr":
+                        outer = e
                         break
                     path.append(nm)
                     head = (nm, d0, ol0)
-                    if nm in tb["heads"] and nm != "gen_variable_decl":
-                        break
+                    if nm in tb["heads"]:
+                        if nm != "gen_variable_decl":
+                            break
+                        cand = (len(path), head)
+                if head is not None and head[0] not in tb["heads"] and cand is not None:
+                    path, head = path[:cand[0]], cand[1]
+                if head is not None and head[0] in tb["gens"] and outer is None:
+                    for e in reversed(stack):
+                        if e[0] == "generate_expr":
+                            outer = e
+                            break
                 line = sys._getframe(1).f_lineno
+                cum, droot = 0, d1
                 if head is not None:
                     key = (">".join(reversed(path)), line)
                     s = tb["sites"].get(key)
@@ -108,6 +128,20 @@ def install(state, spec):
                             prim = et is not None and getattr(et, "is_primitive", lambda: False)()
                             if not prim:
                                 miss("cut-not-applied", site=list(key), depth=d1, max_depth=m)
+                        # raised-counter calls since the root of the region (the real counterpart of `wdepth`)
+                        if head[0] in tb["gens"] and outer is not None:
+                            cum, droot = outer[5] + s["cnt"], outer[6]
+                        else:
+                            cum, droot = s["cnt"], head[1]
+                        if not gb:
+                            if cum > st["max_wdepth"]:
+                                st["max_wdepth"] = cum
+                            slack = cum - max(0, tb["cutK"] * m - droot)
+                            if slack > st["max_slack"]:
+                                st["max_slack"] = slack
+                            if cum > max(0, tb["cutK"] * m - droot) + 4 * tb["maxCnt"] and len(st["over"]) < 3:
+                                st["over"].append({"site": list(key), "wdepth": cum, "root_depth": droot,
+                                                   "depth": d1, "max_depth": m})
                 if gb:
                     st["bottoms"] += 1
                     return fn(self, *args, **kwargs)
@@ -121,7 +155,7 @@ def install(state, spec):
                         n += 1
                         f = f.f_back
                     st["max_pyframes"] = max(st["max_pyframes"], n)
-                stack.append(("generate_expr", d1, ol, is_void, et is None))
+                stack.append(("generate_expr", d1, ol, is_void, et is None, cum, droot))
                 try:
                     return fn(self, *args, **kwargs)
                 finally:
@@ -131,7 +165,7 @@ def install(state, spec):
 
         def w(self, *args, **kwargs):
             if name in tb["gens"] and stack and stack[-1][0] == "generate_expr" and not stack[-1][4]:
-                _, d, ol, v, _ = stack[-1]
+                _, d, ol, v = stack[-1][:4]
                 m = cfg.limits.max_depth
                 br = 0 if v else (1 if (d >= m or ol) else 2)
                 st["dispatch_checked"] += 1
